@@ -302,7 +302,7 @@ fn main() {
     });
 
     let st = structural(&mut run, thorough);
-    let nav_depth = if thorough { 4 } else { 3 };
+    let nav_depth = if thorough { 5 } else { 3 };
     let nv = navigation(&mut run, nav_depth);
 
     let mut cov = Map::new();
